@@ -3,7 +3,10 @@
 // The contenders work through `mutex::ownership` objects: every grant is stored into an ownership object (the contender's
 // own one or a slot shared by all contenders, which the mutex itself guards) and given up through that object.
 //
-//   case <id> mutex
+//   case <id> mutex        (kind `mutexp`: additionally, after every operation line, a digest line of the REAL pointer state:
+//                           `p req=<ptr> queue=<ptr> | <node>><ptr> ...` = `_requests`, `_queue` and `_next` of every request node
+//                           the harness knows to be alive - published by a successful CAS of its owner, owner not yet past its
+//                           acquisition -, sorted; ptr = null | door | n<agent>.<key> | ?; compared with lean/Drivers/C08P.lean)
 //   t sync <round>...      a contender that is an ordinary thread
 //   t coro <round>...      a contender that is a coroutine (started on its own thread, continues wherever it is resumed)
 //   sched <tid>...
@@ -55,8 +58,63 @@ struct Scn {
 
     void log(const std::string &s) { S().log_line(s); }
 
+    // ---- kind `mutexp`: digest of the real pointer state after every operation line ----
+    // canonical names: a request node is named when its owner's publishing CAS succeeded (`_requests` holds its address at
+    // that moment) as n<agent>.<key>, key = 0 for the awaiter of `co_await lock()` / of a callback request (same place in every
+    // round), round + 1 for the sync_awaiter of a blocking lock (the model's `keyOf`); it is forgotten when its owner enters crit()
+    // (from then on the awaiter may be gone and must not be read).
+    bool digest_on = false;
+    std::vector<std::vector<std::string>> specs;
+    std::map<const void *, std::pair<int, int>> node_of;      // address -> (agent, key)
+    std::string pname(const void *p) {
+        if (!p) return "null";
+        if (p == &awaiter::instance) return "door";
+        auto it = node_of.find(p);
+        if (it == node_of.end()) return "?";
+        return "n" + std::to_string(it->second.first) + "." + std::to_string(it->second.second);
+    }
+    void forget_node(int a) {
+        for (auto it = node_of.begin(); it != node_of.end();)
+            if (it->second.first == a) it = node_of.erase(it); else ++it;
+    }
+    // called with every complete output line of the scheduler
+    void on_line(const std::string &l) {
+        if (l.size() < 2 || l[0] != 's' || l[1] != ' ') return;
+        auto w = split(l);
+        if (w.size() < 4 || w[2][0] != 'a') return;               // `s <tid> fin`
+        if (w.size() >= 6 && w[3] == "cas+" && w[4] == "req" && w[5].size() > 4 && w[5].compare(w[5].size() - 4, 4, ">ptr") == 0) {
+            int a = atoi(w[2].c_str() + 1);
+            int r = rounds_done[a];
+            char fl = specs[a][2 + r][0];
+            node_of[mx._requests.raw()] = {a, (fl == 'c' || fl == 'k') ? 0 : r + 1};
+        }
+        std::vector<std::pair<std::pair<int, int>, const awaiter *>> known;
+        for (auto &kv : node_of) known.push_back({kv.second, static_cast<const awaiter *>(kv.first)});
+        std::sort(known.begin(), known.end());
+        std::string d = "p req=" + pname(mx._requests.raw()) + " queue=" + pname(mx._queue) + " |";
+        for (auto &k : known)
+            d += " n" + std::to_string(k.first.first) + "." + std::to_string(k.first.second) + ">" + pname(k.second->_next);
+        std::cout << d << "\n";
+    }
+    struct LineBuf : std::streambuf {
+        Scn *scn = nullptr;
+        std::string line;
+        int overflow(int ch) override {
+            if (ch == '\n') {
+                std::string l;
+                l.swap(line);
+                std::cout << l << "\n";
+                scn->on_line(l);
+            } else if (ch != EOF) line.push_back(static_cast<char>(ch));
+            return ch == EOF ? 0 : ch;
+        }
+    };
+    LineBuf linebuf;
+    std::ostream lineout{&linebuf};
+
     void crit(int a, int r) {
         vshim::Sched::tag() = a;
+        if (digest_on) forget_node(a);
         ++in_cs;
         log("cs a" + std::to_string(a) + " r" + std::to_string(r) + (in_cs > 1 ? " OVERLAP" : ""));
         S().log_op("cs");
@@ -176,7 +234,12 @@ struct Scn {
         log("done a" + std::to_string(a));
     }
 
-    void run(const std::vector<std::vector<std::string>> &threads, const std::vector<int> &sched) {
+    void run(const std::vector<std::vector<std::string>> &threads, const std::vector<int> &sched, bool digest) {
+        digest_on = digest;
+        specs = threads;
+        std::ostream *saved_out = S().out;
+        if (digest) { linebuf.scn = this; S().out = &lineout; }
+        struct Restore { std::ostream *o; ~Restore() { S().out = o; } } restore{saved_out};
         S().name_obj(&mx._requests, "req");
         S().name_ptr(&awaiter::instance, "door");
         rounds_done.assign(threads.size(), 0);
@@ -206,7 +269,7 @@ struct Scn {
     }
 };
 
-static void run_case(const std::vector<std::vector<std::string>> &lines) {
+static void run_case(const std::vector<std::vector<std::string>> &lines, bool digest) {
     std::vector<std::vector<std::string>> threads;
     std::vector<int> sched;
     for (auto &w : lines) {
@@ -215,7 +278,7 @@ static void run_case(const std::vector<std::vector<std::string>> &lines) {
     }
     {
         Scn s;
-        s.run(threads, sched);
+        s.run(threads, sched, digest);
     }
     S().log_line("end");
 }
@@ -233,7 +296,7 @@ int main() {
         pid_t pid = fork();
         if (pid == 0) {
             alarm(20);
-            run_case(lines);
+            run_case(lines, hdr.size() > 2 && hdr[2] == "mutexp");
             std::cout.flush();
             _exit(0);
         }
